@@ -39,23 +39,27 @@ static inline std::string hex(const std::vector<unsigned char> &v) { return hex(
 
 extern bool g_canary_failed;    // set when a guard byte around a Buf was damaged
 extern bool g_exact;            // VERIF_EXACT=1: exact-size heap blocks (for ASan), no guards
+extern unsigned g_misalign;     // VERIF_MISALIGN=k (1..15): every caller buffer starts k bytes after a 16-aligned address
 
 // A caller-side buffer of exactly n usable bytes.  Default: 32 guard bytes
 // of 0xA5 on both sides, verified on destruction.  Exact mode: malloc(n)
 // so that a sanitizer sees any overrun.  n = 0 gives a valid one-past
 // pointer (or NULL when null_if_empty).
 struct Buf {
-    unsigned char *base; unsigned char *p; size_t n; bool exact;
+    unsigned char *base; unsigned char *p; unsigned char *q; size_t n; bool exact; unsigned k;
     explicit Buf(size_t n_, bool null_if_empty = false, unsigned char fill = 0xEE) : n(n_) {
         exact = g_exact;
+        k = g_misalign;
         if (exact) {
-            base = (unsigned char *)malloc(n ? n : 1);
-            p = (n == 0 && null_if_empty) ? 0 : base;
-            memset(base, fill, n ? n : 1);
+            // the END of the block is exact (a sanitizer sees any over-read/over-write), the start is misaligned by k
+            base = (unsigned char *)malloc((n ? n : 1) + k);
+            q = base + k;
+            p = (n == 0 && null_if_empty) ? 0 : q;
+            memset(base, fill, (n ? n : 1) + k);
         } else {
-            base = (unsigned char *)malloc(n + 64);
-            memset(base, 0xA5, n + 64);
-            p = base + 32;
+            base = (unsigned char *)malloc(n + 64 + k);
+            memset(base, 0xA5, n + 64 + k);
+            q = p = base + 32 + k;
             memset(p, fill, n);
             if (n == 0 && null_if_empty) p = 0;
         }
@@ -65,14 +69,15 @@ struct Buf {
     }
     bool ok() const {
         if (exact) return true;
+        for (unsigned i = 0; i < 32 + k; ++i)
+            if (base[i] != 0xA5) return false;
         for (int i = 0; i < 32; ++i)
-            if (base[i] != 0xA5 || base[32 + n + i] != 0xA5) return false;
+            if (q[n + i] != 0xA5) return false;
         return true;
     }
     ~Buf() { if (!ok()) g_canary_failed = true; free(base); }
-    std::string hx() const { return hex(exact ? base : base + 32, n); }
+    std::string hx() const { return hex(q, n); }
     bool untouched(unsigned char fill = 0xEE) const {
-        const unsigned char *q = exact ? base : base + 32;
         for (size_t i = 0; i < n; ++i) if (q[i] != fill) return false;
         return true;
     }
